@@ -7,6 +7,14 @@ ALL = [f"C{i:02d}" for i in range(1, 21)]
 
 TECH = "bounded symbolic execution of the real CPython bytecode (pysym: concrete skeleton, symbolic characters, world merging) + z3 queries per final world; counterexamples replayed on the real code"
 
+MORE = {
+    "C01": " For the size clause, up to 4 (quick) / 16 (thorough) distinct solver witnesses of every execution path of the texts of length 3 are replayed on the real code with every character and short segment repeated 2000 times under a CPU-time watchdog.",
+    "C15": " For the no-exception clause at large sizes, solver witnesses of every path of the short numeric family are replayed on the real code with every character repeated 5000 times.",
+    "C07": " A stack that raises is accepted only when the same stack also raises in in-place mode on a fresh copy of the library; the same middleware instance is also applied to its own result.",
+    "C08": " The universe holds a field-less entry, a @string with an empty value and two value-equal comments; positions are looked up identity-first.",
+    "C18": " What the default constructors hand to pylatexenc (rules, options) is checked against recording stand-ins for two constructions in a row.",
+}
+
 CHECKS = {
     "C12": dict(
         text="All strings up to the stated length over a 13-symbol alphabet are executed symbolically through the real split_multiple_persons_names; z3 decides conservation, idempotence and agreement with a reference splitter per final world. Bounded exhaustive-by-solver inside the bound, nothing outside it.",
@@ -118,7 +126,7 @@ def main():
             "evidence_file": f"/verif/evidence/{pid}.json",
             "replay_cmd_template": "cat {path}",
             "engine": "pysym",
-            "level_claimed": {"category": "model_checking", "text": c["text"], "design_ref": c["ref"]},
+            "level_claimed": {"category": "model_checking", "text": c["text"] + MORE.get(pid, "") + " Further input families and multi-call obligations (one middleware instance on several libraries, repeated calls, degenerate libraries) are listed in DESIGN.md §4 and, machine-written, in evidence coverage.bounds.", "design_ref": c["ref"]},
             "level_note": c["note"],
             "technique": c.get("technique", TECH),
         })
